@@ -170,7 +170,8 @@ Qed.
 Definition step_post (c : ctable) (l T : list ctable) (dcur : db) (pcs : list pchange) (T' : list ctable) : Prop :=
   exec_all dcur (map pc_cmd pcs) = Ok (set_tables dcur T') /\ inv l T' /\
   (forall bx, In bx B -> x_name bx = ct_name c -> exists c', In c' T' /\ ct_name c' = x_name bx) /\
-  (forall c2, In c2 T -> ct_name c2 <> ct_name c -> exists c3, In c3 T' /\ ct_name c3 = ct_name c2).
+  (forall c2, In c2 T -> ct_name c2 <> ct_name c -> exists c3, In c3 T' /\ ct_name c3 = ct_name c2) /\
+  (forall c3, In c3 T' -> exists c2, In c2 T /\ ct_name c2 = ct_name c3).
 
 Lemma inv_table_names l T : inv l T -> NoDup (map ct_name T).
 Proof. intros I. apply all_names_NoDup_tables. apply (iv_names l T I). Qed.
@@ -201,6 +202,7 @@ Proof.
   - intros c' bx Hc' Hb. apply (remove_ct_in _ _ _ NDT) in Hc'. apply (iv_refs _ _ I); tauto.
   - intros bx Hb E. exfalso. rewrite <- E in FB. rewrite (find_xtable_B bx Hb) in FB. discriminate.
   - intros c2 H2 Hne. exists c2. split; [apply (remove_ct_in _ _ _ NDT); tauto|reflexivity].
+  - intros c3 H3. exists c3. split; [apply (remove_ct_in _ _ _ NDT) in H3; tauto|reflexivity].
 Qed.
 
 (** the indexes of a table whose diff has no DropIndex are all desired *)
@@ -243,6 +245,7 @@ Proof.
   - intros c' bx' Hc' Hb'. apply (iv_refs _ _ I); assumption.
   - intros bx' Hb' E. exists c. split; [exact HcT|symmetry; exact E].
   - intros c2 H2 Hne. exists c2. split; [exact H2|reflexivity].
+  - intros c3 H3. exists c3. split; [exact H3|reflexivity].
 Qed.
 
 Lemma kept_idx_found c b i0 :
@@ -344,6 +347,9 @@ Proof.
         -- apply (update_ct_in _ _ _ _ NDT). left. exists c. split; [exact FT|reflexivity].
         -- rewrite alter_ct_name. symmetry. exact E.
       * intros c2 H2 Hne. exists c2. split; [|reflexivity]. apply (update_ct_in _ _ _ _ NDT). right. split; [exact H2|congruence].
+      * intros c3 H3. apply (update_ct_in _ _ _ _ NDT) in H3. destruct H3 as [[ct [Fc Ec]]|[H3 _]].
+        -- exists c. split; [exact HcT|]. subst c3. rewrite alter_ct_name. reflexivity.
+        -- exists c3. split; [exact H3|reflexivity].
 Qed.
 
 (** the entry a CREATE TABLE + CREATE INDEX of a desired table leaves is "done" *)
@@ -438,6 +444,51 @@ Proof.
   - intros bx' Hb' E. exists (add_idx (t_idx b) ct0). split; [apply in_or_app; right; left; reflexivity|].
     rewrite E0. change (x_name bx = x_name bx'). rewrite HN, E. reflexivity.
   - intros c2 H2 Hne. exists c2. split; [|reflexivity]. apply in_or_app. left. apply (remove_ct_in _ _ _ NDT). split; [exact H2|congruence].
+  - intros c3 H3. apply in_app_or in H3. destruct H3 as [H3|[<-|[]]].
+    + exists c3. split; [apply (remove_ct_in _ _ _ NDT) in H3; tauto|reflexivity].
+    + exists c. split; [exact HcT|]. rewrite E0. change (ct_name c = x_name bx). symmetry. exact HN.
+Qed.
+
+(** *** a desired table that is not in the database: CREATE TABLE + CREATE INDEX *)
+Lemma step_add T dcur s bx :
+  inv [] T -> db_tables dcur = T -> In bx B -> (forall c', In c' T -> ct_name c' <> x_name bx) ->
+  exists pcs T', plan_loop A B [AddTable (x_name bx)] s = Some (mkPS (ps_changes s ++ pcs) (ps_skipFKs s)) /\
+    exec_all dcur (map pc_cmd pcs) = Ok (set_tables dcur T') /\ inv [] T' /\
+    (exists c', In c' T' /\ ct_name c' = x_name bx) /\
+    (forall c2, In c2 T -> In c2 T') /\
+    (forall c3, In c3 T' -> In c3 T \/ ct_name c3 = x_name bx).
+Proof.
+  intros I HT Hb HNEW.
+  assert (D := BOK bx Hb).
+  destruct (idx_names_NoDup bx Hb) as [NDI INE].
+  destruct (do_ct bx D) as [ct0 HC].
+  destruct (new_ctable_shape _ _ HC) as [pk [EP [E0 ER]]].
+  destruct (created_done bx ct0 Hb HC) as [DN [NMS FKS]].
+  destruct (addTable_stmts bx (do_colok bx D) (do_noauto bx D)) as [pcs [PA ST]].
+  assert (FR : forall x, In x (bx_names bx) -> ~ In x (all_names T)).
+  { intros x Hx Hin. apply in_all_names in Hin. destruct Hin as [c' [Hc' Hx']].
+    destruct (iv_all _ _ I c' Hc') as [[]|[bx' [Hb' [Hn' [_ Hns]]]]].
+    assert (E : bx = bx') by (apply (b_names_disjoint bx bx' x); auto).
+    subst bx'. exact (HNEW c' Hc' Hn'). }
+  exists pcs, (T ++ [add_idx (t_idx (x_t bx)) ct0]). split.
+  { cbn [plan_loop]. rewrite (find_xtable_B bx Hb), PA. reflexivity. }
+  split.
+  { rewrite ST, <- HT. apply exec_add_table; try assumption.
+    - rewrite HT. apply FR. left. reflexivity.
+    - intros i Hi. rewrite <- (do_idx bx D i Hi). apply index_def_ok_cols. rewrite E0. reflexivity.
+    - intros i Hi. split; [rewrite HT; apply FR; right; apply in_map; exact Hi|apply INE; exact Hi]. }
+  split.
+  { constructor.
+    - apply all_names_snoc_NoDup; [apply (iv_names _ _ I)|rewrite NMS; apply bx_names_NoDup; exact Hb|].
+      intros x Hx. rewrite NMS in Hx. apply FR. exact Hx.
+    - intros c' [].
+    - intros c' Hc'. apply in_app_or in Hc'. destruct Hc' as [Hc'|[<-|[]]]; [|right; exact DN].
+      destruct (iv_all _ _ I c' Hc') as [[]|H]. right. exact H.
+    - intros c' bx' Hc' Hb'. apply in_app_or in Hc'. destruct Hc' as [Hc'|[<-|[]]]; [apply (iv_refs _ _ I); assumption|].
+      intros f Hf. rewrite FKS in Hf. destruct (cp_new d0 B CP bx' Hb') as [_ [_ [_ M4]]]. exact (M4 bx Hb f Hf). }
+  split; [exists (add_idx (t_idx (x_t bx)) ct0); split; [apply in_or_app; right; left; reflexivity|rewrite E0; reflexivity]|].
+  split; [intros c2 H2; apply in_or_app; left; exact H2|].
+  intros c3 H3. apply in_app_or in H3. destruct H3 as [H3|[<-|[]]]; [left; exact H3|right; rewrite E0; reflexivity].
 Qed.
 
 End Step.
